@@ -457,7 +457,7 @@ class C15(Prop):
             # confirmation
             if h.ok and h.unsol:
                 accepted_unsol = bool(unsol_info)
-                if src == ADDR and not removed and (integrity_cfg == 0 or len(h.objs) == 0) and not accepted_unsol:
+                if src == ADDR and not removed and pv == "ok" and (integrity_cfg == 0 or len(h.objs) == 0) and not accepted_unsol:
                     fails.append(("unsolicited-accepted", "an unsolicited response of the outstation was not processed: " + where))
                 if (src != ADDR or removed) and (accepted_unsol or confirms or cbs):
                     fails.append(("reject-is-inert", "an unsolicited response from a foreign address had an effect: " + where))
@@ -479,7 +479,8 @@ class C15(Prop):
                     if cbs != want_cb:
                         fails.append(("duplicate-unsolicited" if dup else "delivered-once-in-order",
                                       "handler saw %d callbacks, expected %d: %s" % (len(cbs), len(want_cb), where)))
-                    if not dup and pv != "ok" and h.con and confirms:
+                if pv != "ok" and (confirms or accepted_unsol):
+                    if True:
                         fails.append(("confirmed-not-delivered",
                                       "an unsolicited fragment whose objects could not be parsed was confirmed although "
                                       "nothing reached the handler: " + where))
